@@ -124,6 +124,11 @@ def parse_family(tier, checks, name_prefix='', kinds=('String', 'SmallString'), 
                 for a in lens(k, 1):
                     for b in lens(k, 1):
                         add(T, fill(pr, a, b))
+            # long skeletons: many segments / qualifiers (deeper binary searches, longer loops) around small holes
+            add(T, ['pkg:t/a/b/c/d/', ('hole', 'h', 2), '/f/n@1.2.3?b=1&d=2&f=3&h=4&', ('hole', 'g', 1), '=5&l=6#x/y/z'])
+            add(T, ['pkg:t/n?b=1&d=2&f=3&h=4&j=5&l=6&', ('hole', 'h', 2), '=v'])
+            add(T, ['pkg:t/n?', ('hole', 'h', 1), '=v&b=1&d=2&F=3&h=4&J=5&l=6&n=7'])
+            add(T, ['pkg:t/n#a/b/./c/../d/', ('hole', 'h', 3), '/e//f'])
             # two qualifiers with free keys (ordering of keys that differ in '_', '-', '.', digits, letters)
             add(T, ['pkg:t/n?', ('hole', 'h', 2), '=v&', ('hole', 'g', 2), '=w'])
             add(T, ['pkg:t/n?', ('hole', 'h', 1), '=v&', ('hole', 'g', 2), '=w'])
